@@ -86,10 +86,11 @@ def run(ctx):
                 'units x apertures present/absent x uncertainties present/absent x memmap on/off, sizes 1..6 x 1..5 x 2..40 with position-encoding '
                 'values; cell-wise comparison by wavelength value. a case = one write+read; non-trivial = n_wav>=2 (SED/cube) or n_models>=2 (convolved)')
     ctx.assume('SED files materialise a single dummy aperture when none is set (by design): values are compared, not the dummy',
+               'model names have at most 30 characters (the documented column format is 30A; longer names are truncated by the convolved-flux writer)',
                'values compared with rtol 1e-12 (erg/s goes through /d^2 * d^2)', 'float64 arrays (what the objects hold) are stored as float64')
     ctx.require_events('SED.read:post', 'SEDCube.read:post', 'roundtrip:sed', 'roundtrip:cube', 'roundtrip:convolved', 'cube:get_sed', 'roundtrip:sed-object-reused', 'roundtrip:cube-object-reused', 'roundtrip:sed-other-unit', 'cube:get_sed-after-values-reassigned')
     ctx.require_regimes('sed:asc', 'sed:desc', 'cube:asc', 'cube:desc', 'cube:no-unc', 'cube:no-apertures', 'cube:memmap',
-                        'convolved:no-apertures', 'unit:erg/s', 'unit:Jy', 'cube:valid-flags', 'cube:unc-in-another-unit', 'sed:error-in-another-unit', 'cube:axis-unit:nm', 'cube:axis-unit:GHz', 'cube:axis-unit:mm')
+                        'convolved:no-apertures', 'unit:erg/s', 'unit:Jy', 'cube:valid-flags', 'convolved:error-in-another-unit', 'cube:unc-in-another-unit', 'sed:error-in-another-unit', 'cube:axis-unit:nm', 'cube:axis-unit:GHz', 'cube:axis-unit:mm')
     cfg = list(itertools.product(['asc', 'desc'], ['nu', 'wav'], list(FLUX_UNITS), [True, False], [True, False], [True, False]))
     reps = 1 if ctx.quick else 20
     d = ctx.newdir('c12')
@@ -411,7 +412,7 @@ def run(ctx):
             # ---------------- convolved fluxes ----------------
             cf = ConvolvedFluxes()
             cf.central_wavelength = (float(wav_asc[0]) * u.micron).to([u.micron, u.nm, u.mm, u.AA][int(rng.integers(4))])
-            nm2 = max(n_m, 2)
+            nm2 = n_m          # (a table with a single model is a table)
             cf.model_names = np.array(rng.permutation(['cv_%02d' % (i * 3) for i in range(nm2)]))      # not in lexical order
             if with_ap:
                 cf.apertures = (aps * u.au).to(apu)
@@ -419,6 +420,9 @@ def run(ctx):
             cunit = u.mJy if fu in ('mJy', 'erg/cm2/s', 'erg/s') else u.Jy
             cf.flux = fl * cunit
             cf.error = fl * 0.02 * cunit
+            if ic % 2 == 0:        # errors held in another unit than the fluxes
+                cf.error = (fl * 0.02 * cunit).to(u.Jy if cunit == u.mJy else u.mJy)
+                ctx.regime('convolved:error-in-another-unit')
             path = os.path.join(d, 'conv_%d.fits' % ic)
             try:
                 cf.write(path)
